@@ -192,7 +192,7 @@ Definition msg_equiv_upto_lognorm (a b : qmsg) : Prop := meta_eq a b /\ eeq (ele
 Definition msg_equiv (a b : qmsg) : Prop := msg_equiv_upto_lognorm a b /\ lognorm a == lognorm b.
 
 Notation qnat := (nat_of Qops).
-Notation qsum := (b_sum Qops).
+Notation qsum := (b_sum Qops pinned).
 Notation qdiv := (b_div Qops).
 Notation qpow := (b_pow Qops).
 Notation qzeros := (b_zeros Qops).
@@ -541,15 +541,15 @@ Qed.
 (* fixed messages: arithmetic is the identity (any number type)        *)
 
 Section Fixed.
-  Context {T : Type} (O : ops T).
-  Lemma fixed_sum (a : msg (T := T)) (l : list msg) : fam a = FFixed -> b_sum O a l = a.
+  Context {T : Type} (O : ops T) (V : variant).
+  Lemma fixed_sum (a : msg (T := T)) (l : list msg) : fam a = FFixed -> b_sum O V a l = a.
   Proof. intro H. unfold b_sum, is_fixed. rewrite H. reflexivity. Qed.
   Lemma fixed_div (a b : msg (T := T)) : fam a = FFixed -> b_div O a b = a.
   Proof. intro H. unfold b_div, is_fixed. rewrite H. reflexivity. Qed.
   Lemma fixed_pow (a : msg (T := T)) (k : T) : fam a = FFixed -> b_pow O a k = a.
   Proof. intro H. unfold b_pow, is_fixed. rewrite H. reflexivity. Qed.
   (* with `__truediv__ = _no_op` (proposed) division by a real is the identity too *)
-  Lemma fixed_sdiv (V : variant) (a : msg (T := T)) (c : T) : fam a = FFixed -> fixed_truediv_noop V = true ->
+  Lemma fixed_sdiv (a : msg (T := T)) (c : T) : fam a = FFixed -> fixed_truediv_noop V = true ->
     b_sdiv O V a c = a /\ b_sdiv O V (b_smul O a c) c = a.
   Proof.
     intros H K. assert (S : b_smul O a c = a) by (unfold b_smul, is_fixed; rewrite H; reflexivity).
@@ -558,8 +558,8 @@ Section Fixed.
   Lemma fixed_zeros (a : msg (T := T)) : fam a = FFixed -> b_zeros O a = a.
   Proof. intro H. unfold b_zeros. rewrite H. apply fixed_pow. exact H. Qed.
   Lemma fixed_laws (a b : msg (T := T)) (j k : T) : fam a = FFixed ->
-    b_div O (b_sum O a [b]) b = a /\ b_sum O (b_div O a b) [b] = a
-    /\ b_sum O (b_pow O a j) [b_pow O a k] = b_pow O a (oadd O j k) /\ b_sum O a [b_zeros O a] = a.
+    b_div O (b_sum O V a [b]) b = a /\ b_sum O V (b_div O a b) [b] = a
+    /\ b_sum O V (b_pow O a j) [b_pow O a k] = b_pow O a (oadd O j k) /\ b_sum O V a [b_zeros O a] = a.
   Proof.
     intro H. repeat split.
     - rewrite (fixed_sum a [b] H). apply fixed_div. exact H.
@@ -643,3 +643,73 @@ Lemma natural_moment_match (m1 m2 : Q) : ~ m2 - m1 * m1 == 0 ->
   | _ => False
   end.
 Proof. intro H. cbn. split; field; auto. Qed.
+
+(* ------------------------------------------------------------------ *)
+(* PROPOSED repair (proposed_fixes/C17-product-keeps-lognorm): sum_natural_parameters carries log_norm.
+   For every variant with that flag the self-consistency laws hold in full, log_norm included. *)
+Section KeepLognorm.
+  Variable V : variant.
+  Hypothesis K : product_keeps_lognorm V = true.
+  Notation ksum := (b_sum Qops V).
+
+  Lemma ksum_fields (a : qmsg) (l : list qmsg) :
+    meta_eq (ksum a l) (qsum a l) /\ elems (ksum a l) = elems (qsum a l).
+  Proof. unfold meta_eq, b_sum. destruct (is_fixed a); cbn; repeat split; reflexivity. Qed.
+
+  Lemma ksum_lognorm (a b : qmsg) : exact_family (fam a) -> lognorm (ksum a [b]) == lognorm a + lognorm b.
+  Proof. intro H. unfold b_sum. rewrite exact_not_fixed by exact H. rewrite K. cbn. ring. Qed.
+
+  Lemma ksum_upto (a : qmsg) (l : list qmsg) : msg_equiv_upto_lognorm (ksum a l) (qsum a l).
+  Proof. destruct (ksum_fields a l) as [M E]. split; [exact M | rewrite E; apply eeq_refl]. Qed.
+
+  Lemma upto_trans (a b c : qmsg) : msg_equiv_upto_lognorm a b -> msg_equiv_upto_lognorm b c -> msg_equiv_upto_lognorm a c.
+  Proof. intros [M1 E1] [M2 E2]. split; [eapply meta_trans; eassumption | eapply eeq_trans; eassumption]. Qed.
+
+  (* division only looks at class, parameters and meta data of its left operand *)
+  Lemma div_cong (x y b : qmsg) : meta_eq x y -> elems x = elems y ->
+    meta_eq (qdiv x b) (qdiv y b) /\ elems (qdiv x b) = elems (qdiv y b).
+  Proof.
+    destruct x as [fx sx ex lx ix lox hix], y as [fy sy ey ly iy loy hiy]. unfold meta_eq. cbn.
+    intros (F & S & I & L & H) E. subst. unfold b_div, is_fixed, nat_of. cbn.
+    destruct (family_eqb fy FFixed); cbn; repeat split; reflexivity.
+  Qed.
+
+  Lemma div_mul_full (a b : qmsg) : exact_family (fam a) -> exact_family (fam b) -> wf a -> wf b ->
+    same_shape a b -> msg_equiv (qdiv (ksum a [b]) b) a.
+  Proof.
+    intros Ha Hb Wa Wb S. destruct (div_mul_partial a b Ha Hb Wa Wb S) as [P _].
+    destruct (ksum_fields a [b]) as [M E]. destruct (div_cong _ _ b M E) as [M' E'].
+    assert (Hk : exact_family (fam (ksum a [b]))).
+    { destruct M as [F _]. rewrite F, sum_fam. exact Ha. }
+    split.
+    - eapply upto_trans; [|exact P]. split; [exact M' | rewrite E'; apply eeq_refl].
+    - rewrite div_lognorm by exact Hk. rewrite ksum_lognorm by exact Ha. ring.
+  Qed.
+
+  Lemma mul_div_full (a b : qmsg) : exact_family (fam a) -> exact_family (fam b) -> wf a -> wf b ->
+    same_shape a b -> msg_equiv (ksum (qdiv a b) [b]) a.
+  Proof.
+    intros Ha Hb Wa Wb S. destruct (mul_div_partial a b Ha Hb Wa Wb S) as [P _].
+    assert (Hd : exact_family (fam (qdiv a b))) by (rewrite div_fam; exact Ha).
+    split.
+    - eapply upto_trans; [apply ksum_upto | exact P].
+    - rewrite ksum_lognorm by exact Hd. rewrite div_lognorm by exact Ha. ring.
+  Qed.
+
+  Lemma pow_add_full (a : qmsg) (j k : Q) : exact_family (fam a) -> wf a ->
+    msg_equiv (ksum (qpow a j) [qpow a k]) (qpow a (j + k)).
+  Proof.
+    intros Ha Wa. destruct (pow_add_partial a j k Ha Wa) as [P _].
+    assert (Hj : exact_family (fam (qpow a j))) by (rewrite pow_fam; exact Ha).
+    split.
+    - eapply upto_trans; [apply ksum_upto | exact P].
+    - rewrite ksum_lognorm by exact Hj. rewrite !pow_lognorm by exact Ha. ring.
+  Qed.
+
+  Lemma mul_zeros_full (a : qmsg) : exact_family (fam a) -> wf a -> msg_equiv (ksum a [qzeros a]) a.
+  Proof.
+    intros Ha Wa. split.
+    - eapply upto_trans; [apply ksum_upto | apply mul_zeros_partial; assumption].
+    - rewrite ksum_lognorm by exact Ha. rewrite zeros_is_pow0 by exact Ha. rewrite pow_lognorm by exact Ha. ring.
+  Qed.
+End KeepLognorm.
